@@ -86,17 +86,19 @@ struct Facts {
   bool erasedAbsent = false;   // vector column: a recorded erased row has no entry in the column
   bool heapViolated = false;   // heap column: the array is not a heap
   bool reorderUnsafe = false;  // a reorder looping over 0..number_of_columns-1 would leave the containers
+  bool mapsBroken = false;     // the two swap maps are not inverse of each other
+  bool knownRowLost = false;   // map container: a row the model knows to be registered has no key in indexToRow_
   std::string str() const {
-    std::string s = "rows_swapped=0 maps_identity=0 stale_column_index=0 erased=0 erased_absent=0 not_heap=0 reorder_unsafe=0";
-    bool v[7] = {rowSwapped, mapsIdentity, staleColIndex, erasedAny, erasedAbsent, heapViolated, reorderUnsafe};
+    std::string s = "rows_swapped=0 maps_identity=0 stale_column_index=0 erased=0 erased_absent=0 not_heap=0 reorder_unsafe=0 maps_broken=0 known_row_lost=0";
+    bool v[9] = {rowSwapped, mapsIdentity, staleColIndex, erasedAny, erasedAbsent, heapViolated, reorderUnsafe, mapsBroken, knownRowLost};
     int k = 0;
     for (auto& c : s) if (c == '=') { (&c)[1] = v[k++] ? '1' : '0'; }
     return s;
   }
   void parse(const std::string& s) {
-    bool* v[7] = {&rowSwapped, &mapsIdentity, &staleColIndex, &erasedAny, &erasedAbsent, &heapViolated, &reorderUnsafe};
+    bool* v[9] = {&rowSwapped, &mapsIdentity, &staleColIndex, &erasedAny, &erasedAbsent, &heapViolated, &reorderUnsafe, &mapsBroken, &knownRowLost};
     int k = 0;
-    for (size_t i = 0; i + 1 < s.size() && k < 7; ++i) if (s[i] == '=') *v[k++] = s[i + 1] == '1';
+    for (size_t i = 0; i + 1 < s.size() && k < 9; ++i) if (s[i] == '=') *v[k++] = s[i + 1] == '1';
   }
 };
 struct Outcome {
@@ -247,7 +249,7 @@ struct Driver {
     }
   }
 
-  Facts facts(M& m) const {
+  Facts facts(M& m, const Model& mod) const {
     Facts f;
     if constexpr (!COMP) {
       auto& B = m.matrix_;
@@ -258,7 +260,15 @@ struct Driver {
         if constexpr (MAPC) {
           for (auto& kv : B.indexToRow_) if (kv.first != kv.second) f.mapsIdentity = false;
           for (auto& kv : B.rowToIndex_) if (kv.first != kv.second) f.mapsIdentity = false;
+          if (B.indexToRow_.size() != B.rowToIndex_.size()) f.mapsBroken = true;
+          for (auto& kv : B.indexToRow_) {
+            auto it = B.rowToIndex_.find(kv.second);
+            if (it == B.rowToIndex_.end() || it->second != kv.first) f.mapsBroken = true;
+          }
+          for (int r : mod.known) if (!B.indexToRow_.count((unsigned)r)) f.knownRowLost = true;
         } else {
+          for (size_t i = 0; i < B.indexToRow_.size(); ++i)
+            if (B.indexToRow_[i] >= B.rowToIndex_.size() || B.rowToIndex_[B.indexToRow_[i]] != i) f.mapsBroken = true;
           for (size_t i = 0; i < B.indexToRow_.size(); ++i) if (B.indexToRow_[i] != i) f.mapsIdentity = false;
           for (size_t i = 0; i < B.rowToIndex_.size(); ++i) if (B.rowToIndex_[i] != i) f.mapsIdentity = false;
           if (B.rowToIndex_.size() != B.indexToRow_.size()) f.mapsIdentity = false;
@@ -352,14 +362,15 @@ struct Driver {
     bool target_zero = (range_op || col_op) && before.cols.count(o->b) && rules.is_zero(before.cols.at(o->b));
     bool target_emptied = (o->k == MTA || o->k == MTA_R) && rules.U.mod(o->q) == 0;
     if (S.swaps) {
-      if (!pre.rowSwapped && !pre.mapsIdentity) return "reorder_bounded_by_number_of_columns";  // left behind by an earlier reorder
+      if (pre.knownRowLost || post.knownRowLost) return "swap_rows_with_row_unknown_to_the_maps";
+      if (pre.mapsBroken || (!pre.rowSwapped && !pre.mapsIdentity)) return "reorder_bounded_by_number_of_columns";  // left behind by an earlier reorder
       if (abnormal && o->k == INS_AT && !S.mapc && pre.rowSwapped) return "insert_column_at_counted_before_pending_reorder";
       if (abnormal && (pre.rowSwapped || post.rowSwapped) && (pre.reorderUnsafe || post.reorderUnsafe)) return "reorder_bounded_by_number_of_columns";
       if (range_op && pre.rowSwapped && !pre.mapsIdentity) return "entry_range_rows_not_translated_under_pending_row_swap";
+      if (!post.rowSwapped && (!post.mapsIdentity || post.mapsBroken)) return "reorder_bounded_by_number_of_columns";
       if (S.ra && (pre.staleColIndex || post.staleColIndex || o->k == SWAP_C))
         return S.intr ? "column_index_outdated_after_swap_columns" : "set_rows_after_swap_columns";
       if (!nopath.empty()) return nopath;
-      if (!post.mapsIdentity && !post.rowSwapped) return "reorder_bounded_by_number_of_columns";
     }
     if (CT == Column_types::HEAP) {
       if (pre.heapViolated || post.heapViolated) return "heap_column_not_a_heap_after_range_copied_into_empty_column";
@@ -515,7 +526,7 @@ struct Driver {
         const Op& o = rules.ops[hist[i]];
         if (i + 1 == hist.size()) {
           before = mod;
-          pre = facts(m);
+          pre = facts(m, mod);
           last = &o;
           if (pre_fd >= 0) { put_str(pre_fd, pre.str()); pre_fd = -1; }
           in_last = true;
@@ -526,11 +537,11 @@ struct Driver {
       if (pre_fd >= 0) put_str(pre_fd, pre.str());
       in_last = false;
       out.key = mod.key() + internals(m);
-      observe(m, mod, out, [&]() { return situation(last, before, pre, facts(m), false); });
+      observe(m, mod, out, [&]() { return situation(last, before, pre, facts(m, mod), false); });
     } catch (const std::exception& e) {
       if (pre_fd >= 0) put_str(pre_fd, pre.str());
       out.diverged = true;
-      std::string sit = situation(last, before, pre, facts(m), true);
+      std::string sit = situation(last, before, pre, facts(m, mod), true);
       out.findings.push_back({"C09:exception:" + sit, rules.S.name + " exception '" + e.what() + "' " + (in_last ? "in the last operation" : "while reading the state") +
                                                           " model=" + mod.key()});
     }
@@ -748,8 +759,13 @@ void run_variant(RunArgs& A) {
   vf::Stats& st = vf::stats();
   st.add("ev.states", r.states);
   st.add("ev.transitions", r.transitions);
-  st.add("ev.traces", r.transitions + 1 + r.validated);
-  st.add("ev.evaluations", r.transitions + 1 + r.validated);
+  long long skipped = 0;  // transitions counted but not executed again after three deaths in the same situation
+  for (auto& kv : st.c) if (kv.first.rfind("not_executed.", 0) == 0) skipped += kv.second;
+  static long long skipped_before = 0;
+  long long executed = r.transitions + 1 + r.validated - (skipped - skipped_before);
+  skipped_before = skipped;
+  st.add("ev.traces", executed);
+  st.add("ev.evaluations", executed);
   st.add("ev.nontrivial", r.states);
   bool complete = r.closed || (A.depth >= 0 && r.completed_depth >= A.depth && !r.deadline_hit && !r.failed);
   if (!complete) { st.add("ev.incomplete", 1); st.add("incomplete." + S.name, 1); }
